@@ -280,6 +280,48 @@ pub fn run(ctx: &Ctx) {
     }
   });
   ctx.subspace(&format!("(1c) all lunations k = {}..{} ({}) against the new-moon series within 3 min (TT)", ka, kb, if ctx.quick() { "years 1000..4000" } else { "years -1000..6000" }), done, (kb - ka) as u64);
+  // (1d) wide era, in TT (delta-T does not enter): the library's solved instant for every term target vs the independent
+  // apparent longitude; the low-accuracy theory degrades away from J2000, so the tolerance grows with the distance
+  let worst_wide = std::sync::Mutex::new(vec![0.0f64; 12]);
+  let (ga, gb) = if ctx.quick() { (24 * 0i64, 24 * 4000i64) } else { (24 * -2000i64, 24 * 6000i64) };
+  let step = if ctx.quick() { 5 } else { 1 };
+  let nwide = ((gb - ga) / step) as usize;
+  let done = par_chunks(ctx, 0, nwide, 512, |a, b, l| {
+    for i in a..b {
+      let g = ga + i as i64 * step;
+      // term target: longitude 270 + 15 * index, counted in whole turns from the year-2000 terms
+      let kq = g - 24 * 2000; // number of term steps from (2000, 0) = winter solstice of December 1999 (W = -pi/2)
+      let w = (kq as f64 - 6.0) * PI / 12.0; // W = 0 at the March equinox of 2000 (index 6)
+      l.transitions += 1;
+      let r = guard(|| ShouXingUtil::sa_lon_t(w) * 36525.0 + J2000);
+      match r {
+        Ok(jde) => {
+          let target = (270.0 + 15.0 * g.rem_euclid(24) as f64).rem_euclid(360.0);
+          let mut dl = (target - sun_apparent_lon(jde)).rem_euclid(360.0);
+          if dl > 180.0 {
+            dl -= 360.0;
+          }
+          let dmin = (dl / (360.0 / 365.2422) * 1440.0).abs();
+          let cy = ((jde - J2000) / 36525.0).abs();
+          let ky = cy / 10.0;
+          let tol = 18.0 + 2.5 * ky * ky; // minutes: measured worst 15 / 21 / 38 / 50 min at 0.5 / 2 / 3.5 / 4 millennia from J2000
+          {
+            let mut wv = worst_wide.lock().unwrap();
+            let slot = ((cy / 5.0) as usize).min(11);
+            if dmin > wv[slot] {
+              wv[slot] = dmin;
+            }
+          }
+          if !(dmin <= tol) {
+            ctx.violation("term_vs_theory_tt", format!("{:+07}", g), format!("term target #{} (year {}, index {}): solved instant JDE {} (TT); the independent theory puts the Sun {:.1} min away from the target longitude (tolerance {:.0} min at this distance from J2000)", g, g.div_euclid(24), g.rem_euclid(24), jde, dmin, tol), vec!["widesun".into(), g.to_string()]);
+          }
+        }
+        Err(m) => ctx.violation("term_vs_theory_tt", format!("{:+07}", g), format!("panics: {}", m), vec!["widesun".into(), g.to_string()]),
+      }
+    }
+  });
+  ctx.subspace(&format!("(1d) every {} term target of years {}..{} solved in TT against the independent apparent solar longitude (tolerance 18 min + 2.5 min x millennia^2; only gross secular errors are visible here)", if step == 1 { "".to_string() } else { format!("{}th", step) }, ga / 24, gb / 24), done, nwide as u64);
+  ctx.note(format!("worker {}: (1d) worst Sun deviation per 500-year distance band from J2000 (min): {:?}", part().0, worst_wide.lock().unwrap().iter().map(|x| (x * 10.0).round() / 10.0).collect::<Vec<_>>()));
   // (2a) terms 1961..9999: calendar day == day of the precise instant
   // the day-agreement spaces cost a few seconds, so both tiers enumerate them completely
   let years: Vec<isize> = (1961..=9999).collect();
